@@ -1,5 +1,5 @@
 import Driver.Common
-import AnyioModel.Sync.Lock
+import AnyioModel.Sync.LockHistory
 
 namespace Driver.Lock
 open AnyioModel.Sync.Lock
@@ -21,21 +21,30 @@ def parseEv : List String → Option Ev
   | ["mc", t] => do some (.mc (← t.toNat?))
   | _ => none
 
-def handle (s : State) : List String → State × String
+def natList (l : List Nat) : String :=
+  if l.isEmpty then "-" else ",".intercalate (l.map toString)
+
+/-- the driver keeps the history ghosts of `Sync/LockHistory.lean` next to the state, so that the
+harness can compare them with the same three lists derived from the real Lock's public statistics -/
+def handle (sl : State × Log) : List String → (State × Log) × String
   | ["new", f] =>
     match Driver.parseBool f with
-    | some b => (init b, "ok")
-    | none => (s, "bad-op")
+    | some b => ((init b, {}), "ok")
+    | none => (sl, "bad-op")
   | ["obs"] =>
-    (s, s!"locked={Driver.bool01 s.owner.isSome} owner={Driver.optNat s.owner} waiters={s.waiters.length}")
+    let s := sl.1
+    (sl, s!"locked={Driver.bool01 s.owner.isSome} owner={Driver.optNat s.owner} waiters={s.waiters.length}")
+  | ["log"] =>
+    let l := sl.2
+    (sl, s!"enq={natList l.enq} granted={natList l.granted} cancelled={natList l.cancelled}")
   | ws =>
     match parseEv ws with
-    | none => (s, "bad-op")
+    | none => (sl, "bad-op")
     | some e =>
-      match step s e with
-      | none => (s, "DISABLED")
-      | some (s', o) => (s', outStr o)
+      match step sl.1 e with
+      | none => (sl, "DISABLED")
+      | some (s', o) => ((s', logStep sl.1 sl.2 e s'), outStr o)
 
 end Driver.Lock
 
-def main : IO Unit := Driver.serve (AnyioModel.Sync.Lock.init false) Driver.Lock.handle
+def main : IO Unit := Driver.serve (AnyioModel.Sync.Lock.init false, {}) Driver.Lock.handle
